@@ -211,7 +211,8 @@ def gen_layers(rng, n, with_unit=True, p_fault=0.25, allow_notimpl=True):
         if kind == "instance" and rng.random() < 0.1 and not any(l.get("module") == "wrt" for l in layers):
             # the dotted name of this layer also designates another object of an imported module
             lay["module"], lay["name"] = "wrt", rng.choice(["Base", "LayerError", "LAYERS"])
-        lay["excStyle"] = rng.choice([None, None, "cause", "context", "unhashable", "unhashable-cause", "syntax", "attr-hook"])
+        lay["excStyle"] = rng.choice([None, None, "cause", "context", "unhashable", "unhashable-cause", "syntax", "attr-hook",
+                                      "oserror", "notimpl"])
         if rng.random() < 0.12:
             # a hook that takes a minute or more (the world moves the clock instead of sleeping)
             lay[rng.choice(["slowSetUp", "slowTearDown"])] = rng.choice([60, 61.5, 75, 119.9995, 3600, 86400.25])
